@@ -80,11 +80,14 @@ class Setup(RuntimeError):
     pass
 
 
-async def build(w, sess, name, table, all_deleted=False):
+async def build(w, sess, name, table, all_deleted=False, tail=0):
+    """A mailbox whose messages have exactly the UIDs of `table`; `tail` more
+    messages are delivered and expunged behind the last one, so that the next
+    UID to be assigned is not the highest UID + 1."""
     r = await w.cmd(sess, f"CREATE {name}")
     if r.status != "OK":
         raise Setup(f"CREATE {name}: {r.status}")
-    top = table[-1] if table else 0
+    top = (table[-1] if table else 0) + tail
     path = w.folder_path(name)
     if top:
         keys, _ = w.deliver(name, n=top, unseen=False, adv=True)
@@ -106,8 +109,8 @@ async def build(w, sess, name, table, all_deleted=False):
         r = await w.cmd(sess, "EXPUNGE")
         if r.status != "OK":
             raise Setup(f"EXPUNGE: {r.status}")
-    if list(m.uids) != list(table):
-        raise Setup(f"{name}: wanted uids {table}, have {list(m.uids)}")
+    if list(m.uids) != list(table) or m.next_uid != top + 1:
+        raise Setup(f"{name}: wanted uids {table}, have {list(m.uids)} next {m.next_uid}")
     if all_deleted and table:
         # (the server does not re-read the flags of messages it knows from
         # .mh_sequences, so this has to go through STORE: one message at a
@@ -175,7 +178,7 @@ async def layer1(w, group, cases):
     await w.open("A")
     dst = Dst(w, "A")
     await dst.make()
-    m = await build(w, "A", "t1", table)
+    m = await build(w, "A", "t1", table, tail=group.get("tail", 0))
     idmap = ids_by_uid(w, m)
     pre = "UID " if uid else ""
     out = []
@@ -215,12 +218,12 @@ async def layer1(w, group, cases):
         # Mailbox.search -> SearchContext -> _match_message_set / _match_uid
         try:
             v = await m.search(sk.search_key, sk.uid_command)
-            rec["ops"].append(["search", mode, "search", "OK",
+            rec["ops"].append(["Mailbox.search", mode, "search", "OK",
                                [["found", "uid" if uid else "seq", _ints(v)]]])
         except BaseException as e:  # noqa  (ExceptionGroup from the TaskGroup)
             if isinstance(e, (KeyboardInterrupt, SystemExit)):
                 raise
-            rec["ops"].append(["search", mode, "search", _status_of(e), []])
+            rec["ops"].append(["Mailbox.search", mode, "search", _status_of(e), []])
         # Mailbox.copy's own expansion
         if text in cover:
             await dst.fresh()
@@ -233,7 +236,7 @@ async def layer1(w, group, cases):
             except Exception as e:  # noqa
                 st, got = _status_of(e), []
             got.append(["arrived", "uid", dst.arrived(before, idmap)])
-            rec["ops"].append(["copy", mode, "inner", st, got])
+            rec["ops"].append(["Mailbox.copy", mode, "inner", st, got])
             if list(m.uids) != table:
                 raise Setup(f"copy changed the source mailbox: {list(m.uids)}")
         out.append(rec)
@@ -253,6 +256,7 @@ class Cmds:
         self.mode = group["mode"]
         self.uid = self.mode == "uid"
         self.table = list(group["uids"])
+        self.tail = group.get("tail", 0)
         self.sess = "A"
         self.kw = 0
         self.serial = 0
@@ -284,7 +288,8 @@ class Cmds:
         self.serial += 1
         old = self.cur if self.cur and self.cur.startswith(prefix) else None
         name = f"{prefix}{self.serial}"
-        m = await build(self.w, self.sess, name, self.table, all_deleted=all_deleted)
+        m = await build(self.w, self.sess, name, self.table, all_deleted=all_deleted,
+                        tail=self.tail)
         self.cur = name
         if old:
             await self.w.cmd(self.sess, f"DELETE {old}")
